@@ -1,4 +1,52 @@
 //! Kani proof harnesses compiled as a child module of rosomaxa/src/evolution/objectives.rs (cfg(kani) only).
+//!
+//! C09: `dominance_order` (the comparator used by multi-objective layers) is reflexive and antisymmetric.
+use super::*;
+
+fn order_fns<'a, const N: usize>() -> impl Iterator<Item = impl Fn(&'a [i8; N], &'a [i8; N]) -> Ordering> {
+    (0..N).map(|idx| move |a: &'a [i8; N], b: &'a [i8; N]| a[idx].cmp(&b[idx]))
+}
+
+fn laws<const N: usize>() {
+    let a: [i8; N] = kani::any();
+    let b: [i8; N] = kani::any();
+
+    let ab = dominance_order(&a, &b, order_fns::<N>());
+    let ba = dominance_order(&b, &a, order_fns::<N>());
+    let aa = dominance_order(&a, &a, order_fns::<N>());
+
+    assert!(aa == Ordering::Equal);
+    assert!(ab == ba.reverse());
+    // Pareto semantics: Less iff a is no worse everywhere and better somewhere
+    let mut no_worse = true;
+    let mut better = false;
+    let mut idx = 0;
+    while idx < N {
+        no_worse &= a[idx] <= b[idx];
+        better |= a[idx] < b[idx];
+        idx += 1;
+    }
+    assert!((ab == Ordering::Less) == (no_worse && better));
+    kani::cover!(N == 0 || ab == Ordering::Less, "dominates");
+    kani::cover!(N < 2 || (ab == Ordering::Equal && a != b), "incomparable");
+}
+
+// @verif props=C09 tier=quick ob=dominance fn=dominance_order bounds="1, 2 and 3 objective components, values any i8"
+#[kani::proof]
+#[kani::unwind(5)]
+fn c09_dominance_order_laws_1_3() {
+    laws::<1>();
+    laws::<2>();
+    laws::<3>();
+}
+
+// @verif props=C09 tier=thorough ob=dominance fn=dominance_order bounds="0 and 4 objective components, values any i8"
+#[kani::proof]
+#[kani::unwind(6)]
+fn c09_dominance_order_laws_0_4() {
+    laws::<0>();
+    laws::<4>();
+}
 
 // Concrete-playback replays (`cargo kani playback`) are compiled from here; the file is written by /verif/check.
 #[cfg(all(kani, test))]
